@@ -28,3 +28,8 @@ Proof. vm_compute. reflexivity. Qed.
 
 Theorem mutable_globals_registered : mutable_globals = known_globals.
 Proof. vm_compute. reflexivity. Qed.
+
+(* no keeper-like struct carries a map, slice, channel, lock or pointer to plain data:
+   every piece of consensus state is in the store, none in the process *)
+Theorem keepers_hold_no_process_state : keeper_ref_fields = [].
+Proof. vm_compute. reflexivity. Qed.
